@@ -154,6 +154,9 @@ func checkUpdate(vs *types.ValidatorSet, st state, cs []entry, allPerms bool) (s
 	res := stepResult{}
 	exp, rej, info := refUpdate(st.toRef(), toChanges(cs), capBig, true)
 	res.rej, res.grey, res.rescaled = rej, info.grey, info.rescaled
+	if !wellFormed(st) {
+		return res, []finding{{"C12|oracle=member-well-formed", "operation offered on a malformed set: " + st.String(), nil}}
+	}
 	orders := [][]entry{cs}
 	if allPerms {
 		orders = append(orders, permutations(cs)...)
@@ -282,6 +285,9 @@ type seqStats struct {
 // (IncrementProposerPriority(1) each) equal the specification's.
 func checkSequence(vs *types.ValidatorSet, st state, rounds int) ([]finding, seqStats) {
 	var stats seqStats
+	if !wellFormed(st) || rounds <= 0 {
+		return nil, stats
+	}
 	c := vs.Copy()
 	impl := make([]int, 0, rounds)
 	panicked, pv := safely(func() {
